@@ -17,7 +17,7 @@
 """Python disassembly functions specific to wordcode from Python 3.6+
 """
 from xdis.bytecode import op_has_argument
-from xdis.cross_dis import _get_cache_size_313, unpack_opargs_bytecode_310
+from xdis.cross_dis import get_jump_cache_size, unpack_opargs_bytecode_310
 
 
 def unpack_opargs_wordcode(code, opc):
@@ -63,8 +63,7 @@ def findlabels(code, opc):
                     arg = -arg
                 arg2 = arg * 2 if opc.version_tuple >= (3, 10) else arg
                 jump_offset = offset + 2 + arg2
-                if opc.version_tuple >= (3,13):
-                    jump_offset += 2 * _get_cache_size_313(opc.opname[op])
+                jump_offset += 2 * get_jump_cache_size(opc.opname[op], opc)
             elif op in opc.JABS_OPS:
                 jump_offset = arg * 2 if opc.version_tuple >= (3, 10) else arg
             else:
